@@ -93,16 +93,42 @@ def ensure_built(verbose=False):
     outdir = os.path.join(BUILD, h)
     done = os.path.join(outdir, "DONE")
     if not os.path.exists(done):
-        os.makedirs(outdir, exist_ok=True)
+        # several checks may start at once after a change of the Fortran sources: each builds in a directory of its own and
+        # the first to finish publishes it with one atomic rename; nobody ever sees a half-built directory
+        import time
+        os.makedirs(BUILD, exist_ok=True)
+        tmp = "%s.tmp%d" % (outdir, os.getpid())
+        shutil.rmtree(tmp, ignore_errors=True)
+        os.makedirs(tmp)
         from concurrent.futures import ThreadPoolExecutor
         with ThreadPoolExecutor(4) as ex:
-            list(ex.map(lambda n: _build_one(n, outdir), EXTS))
-        with open(done, "w") as fh:
+            list(ex.map(lambda n: _build_one(n, tmp), EXTS))
+        with open(os.path.join(tmp, "DONE"), "w") as fh:
             fh.write(h)
-        # drop stale builds (keep disk small)
-        for d in os.listdir(BUILD):
-            if d != h:
-                shutil.rmtree(os.path.join(BUILD, d), ignore_errors=True)
+        try:
+            os.rename(tmp, outdir)
+        except OSError:
+            if os.path.exists(done):
+                shutil.rmtree(tmp, ignore_errors=True)      # another process published the same build first
+            else:
+                # an unfinished directory left by an interrupted build of an older version of this file: replace it
+                stale = "%s.stale%d" % (outdir, os.getpid())
+                try:
+                    os.rename(outdir, stale)
+                    os.rename(tmp, outdir)
+                finally:
+                    shutil.rmtree(stale, ignore_errors=True)
+                    shutil.rmtree(tmp, ignore_errors=True)
+        # drop stale builds (keep disk small): everything but the three most recent ones, and nothing younger than 20 minutes
+        # (a build another process is still working in, or the tree of a check that is still running)
+        now = time.time()
+        others = sorted((d for d in os.listdir(BUILD) if d != h), key=lambda d: os.path.getmtime(os.path.join(BUILD, d)), reverse=True)
+        for d in others[2:]:
+            try:
+                if now - os.path.getmtime(os.path.join(BUILD, d)) > 1200:
+                    shutil.rmtree(os.path.join(BUILD, d), ignore_errors=True)
+            except OSError:
+                pass
         if verbose:
             print("built extensions ->", outdir)
     return {mod: os.path.join(outdir, n + ".cpython-312-x86_64-linux-gnu.so")
